@@ -61,6 +61,8 @@ class Worker:
         self.crash = None
         self.last_output = time.time()
         self.stderr_tail = b""
+        self.nruns = 0
+        self.nnontrivial = 0
 
     def start(self):
         self.proc = subprocess.Popen(self.cmd, stdout=subprocess.PIPE, stderr=subprocess.PIPE, env=self.env, cwd=ROOT)
@@ -85,8 +87,10 @@ class Worker:
             elif tag == "r":
                 parts = line.split()
                 self.last_done = int(parts[1])
+                self.nruns += 1
                 if parts[2] == "n":
                     self.keys[parts[3]] = 1
+                    self.nnontrivial += 1
             elif tag == "S":
                 try:
                     self.summary = json.loads(line[2:])
@@ -177,6 +181,9 @@ def run_stage(pid, flavour, binary, seconds, tier, seed, nworkers, extra, known_
     # aggregate
     for wk in workers:
         s = wk.summary or {}
+        # a worker that crashed or was restarted emitted its last summary up to two seconds before: the result lines it
+        # printed are the measured count of completed runs
+        s = dict(s); s["evaluations"] = max(s.get("evaluations", 0), wk.nruns); s["nontrivial"] = max(s.get("nontrivial", 0), wk.nnontrivial)
         for k in ("evaluations", "nontrivial", "ticks", "micro_ticks", "switches", "worlds", "known_hits"):
             agg[k] = agg.get(k, 0) + s.get(k, 0)
         for k in ("faults", "counts", "strategies", "probes"):
